@@ -191,7 +191,7 @@ impl Driver for BlockAlt {
         "C21"
     }
     fn rule(&self) -> &'static str {
-        "tape -> valid G-static module with nested block/loop/if/else -> 1-3 block-alternate injections (replacement payload or empty) on block / loop / if / else sites whose regions do not overlap, plus 0-4 before/after injections on instructions outside every replaced region, through every API path that accepts special modes -> encode -> decoded bodies must equal the reference lowering: construct removed from its opening instruction through its matching end and the replacement emitted there; for an else: the else keyword and the else-arm removed, the replacement emitted where the else stood, the end kept; everything else unchanged. Non-trivial: a replaced construct contains a nested construct, or an else is replaced. Distinct = hash(module, plan)."
+        "tape -> valid G-static module with nested block/loop/if/else -> 1-4 block-alternate injections (replacement payload or empty) on block / loop / if / else sites whose regions are disjoint or - one time in two - nested inside one another (the inner request then has no effect of its own, the outer construct must still vanish completely), plus 0-4 before/after injections on instructions outside every replaced region, through every API path that accepts special modes -> encode -> decoded bodies must equal the reference lowering: construct removed from its opening instruction through its matching end and the replacement emitted there; for an else: the else keyword and the else-arm removed, the replacement emitted where the else stood, the end kept; everything else unchanged. Non-trivial: a replaced construct contains a nested construct, or an else is replaced. Distinct = hash(module, plan)."
     }
     fn tape_len(&self) -> usize {
         3072
@@ -230,13 +230,23 @@ impl Driver for BlockAlt {
         let mut regions: Vec<(u32, usize, usize)> = vec![];
         let mut marker = 2000;
         let mut nt = false;
-        let n = c.t.range(1, 3);
+        let mut nested_regions = false;
+        let n = c.t.range(1, 4);
         for _ in 0..n {
             let (f, o, e, is_else, nested) = *c.t.pick(&cands);
             // regions must not overlap or nest (an else region covers else..end-1; if/else share the if's end)
             let (lo, hi) = if is_else { (o, e) } else { (o, e) };
+            // Regions of well-nested constructs either are disjoint or contain one another.  A
+            // block-alternate inside a construct that is itself replaced has no effect of its own
+            // (its construct is gone), but the outer construct must still be removed from its
+            // opening instruction through its matching end: generated one time in two.
             if regions.iter().any(|(rf, a, b)| *rf == f && !(hi < *a || lo > *b)) {
-                continue;
+                if regions.iter().any(|(rf, a, b)| *rf == f && *a == lo && *b == hi) || !c.t.bool() {
+                    continue;
+                }
+                c.class("nested_block_alt_regions");
+                nested_regions = true;
+                nt = true;
             }
             // replacing an `if` whose else is replaced as well would overlap: covered by the check above
             regions.push((f, lo, hi));
@@ -289,7 +299,10 @@ impl Driver for BlockAlt {
         if let Err(o) = compare_bodies(c, &din, &ap.out, &plan, "block-alt") {
             return o;
         }
-        if ap.logs.iter().any(|(_, m)| m.starts_with("BUG")) {
+        // the library reports an unresolved inner request with a log line; the statement says
+        // nothing about requests inside a removed region, so the log is only an oracle signal
+        // for plans without nesting
+        if !nested_regions && ap.logs.iter().any(|(_, m)| m.starts_with("BUG")) {
             return fail("bug-log", format!("{:?}", ap.logs));
         }
         for i in &plan {
